@@ -512,6 +512,46 @@ def c13(ctx):
                        "distinct = (configuration, program)")
 
 
+# ------------------------------------------------------------------------------------ C17
+
+@check("C17")
+def c17(ctx):
+    props.check_props_file(ctx, "Props/C17.v")
+    cases = special_mode_cases(ctx, "c17", ["-maxlen", "3" if ctx.quick() else "4"])
+    ev = 0
+    per = Counter()
+    distinct = set()
+    methods = set()
+    for c in cases:
+        ev += 1
+        per[c["builder"]] += 1
+        methods.add(c["method"])
+        rep = {"builder": c["builder"], "refinements": c["refine"], "inherited_method": c["method"],
+               "refined_alone": bytes.fromhex(c["refined"].split("|")[0]).decode("utf8", "replace") if c.get("refined") else None,
+               "through_inherited_method": bytes.fromhex(c["via"].split("|")[0]).decode("utf8", "replace") if c.get("via") else None,
+               "through_plain_wrapper": bytes.fromhex(c["wrap"].split("|")[0]).decode("utf8", "replace") if c.get("wrap") else None}
+        if c.get("panic"):
+            ctx.violation("applying an inherited method panicked: " + c["panic"][:200], rep)
+        elif c["via"] != c["wrap"] or not c["via"].startswith(c["refined"].split("|")[0]):
+            ctx.violation("the operand of the inherited operator is not the refined value", rep)
+        elif not c["handle_ok"]:
+            ctx.violation("the self handle of the refined value is not a copy of the value", rep)
+        else:
+            distinct.add((c["builder"], c["refine"], c["method"]))
+    ctx.cov["evaluations"] = ev
+    ctx.cov["distinct_nontrivial"] = len([d for d in distinct if d[1]])
+    ctx.cov["exhaustive"] = True
+    ctx.cov["inherited_methods"] = sorted(methods)
+    ctx.cov["input_distribution"] = {"per_builder": dict(per)}
+    ctx.cov["rule"] = ("all refinement sequences up to length 3 (thorough: 4) over {Distinct, OrderBy, Asc, Desc, NullsFirst, NullsLast, "
+                       "Filter, WithinGroup, WithOrdinality, As, ColumnDefinition} applicable to FuncBuilder, AggExpBuilder / "
+                       "OrderByAggExpBuilder, CaseExp, IdentExp, fn.JsonToRecord x every method of ExpBase (reflection); the text "
+                       "through the inherited method must equal the text through ExpBase{Exp: refined} and start with the "
+                       "standalone rendering; non-trivial = at least one refinement")
+    ctx.cov["samples"] = [{"builder": c["builder"], "refinements": c["refine"], "method": c["method"],
+                           "sql": bytes.fromhex(c["via"].split("|")[0]).decode("utf8", "replace")} for c in cases[300:303]]
+
+
 # ------------------------------------------------------------------------------------ C19
 
 @check("C19")
